@@ -113,6 +113,13 @@ def check_tree(tree, styles, stats, with_model=True):
             if table_of(gpr, genes) != want:
                 bad("truth table differs", f"{table_of(gpr, genes)} vs {want}")
                 continue
+            # the other documented shapes of the knock-out argument: one gene id as a string, a list, a tuple, a frozenset
+            for g in genes:
+                w = bool(gpr.eval({g}))
+                for shape, arg in (("str", g), ("list", [g]), ("tuple", (g,)), ("frozenset", frozenset([g]))):
+                    if bool(gpr.eval(arg)) != w:
+                        bad("eval with the knock-out given as %s differs from the set form" % shape, f"gene {g!r}")
+                        break
             # text round trip
             for fn in ("to_string", "str"):
                 t2 = gpr.to_string() if fn == "to_string" else str(gpr)
